@@ -4,7 +4,7 @@
     (event scripts universally quantified); what the model cannot exhibit is
     listed in harness/props/c08.py ([not_modelled]). *)
 From InvokeVerif Require Import Model.RunnerSM Spec.C08Spec Corr.RunnerCorr.
-From InvokeVerif Require Import Proofs.RunnerSM_facts Proofs.C08_sm Proofs.RunnerSM_sweep.
+From InvokeVerif Require Import Proofs.RunnerSM_facts Proofs.C08_sm Proofs.RunnerSM_sweep Proofs.C08_flagship.
 
 (** Whenever the process comes to an end (exit, kill on timeout, exit right
     after a forwarded interrupt) and the readers get EOF -- for EVERY event
@@ -77,7 +77,32 @@ Theorem C08_outcome_documented_refuted :   (* F-C08b *)
     s_pc (fst (run_sm c script)) = PDone OChildProcessError.
 Proof. exact outcome_documented_refuted. Qed.
 
-(** Flagship shape, as a finite sweep (a TEST, not the property): for all 128
+(** Flagship: for EVERY configuration and EVERY event script, outside the four
+    catalogued defect regions ([guard08]: not (start failure under a pty) F-C08a,
+    not (pty and an interrupt right after the reaping poll) F-C08b, the first
+    worker death while running is not the stdin worker's F-C08c, no worker death
+    before a process end with fair pipes F-C08d) the model satisfies the
+    executable spec. *)
+Theorem C08_run_meets_spec_partial :
+  forall c script, guard08 c script = true -> C08Spec.spec_ok c script (observe (run_sm c script)) = true.
+Proof. exact run_meets_spec08. Qed.
+
+(** the outcome is one of the documented ones unless a pty meets an interrupt
+    right after the reaping poll (F-C08b) *)
+Theorem C08_outcome_documented_partial :
+  forall c script o,
+    start_raises c = false -> (c_pty c = false \/ no_exit_kbd script = true) ->
+    s_pc (fst (run_sm c script)) = PDone o -> documented o = true.
+Proof. exact outcome_documented_partial. Qed.
+
+(** reaped whenever no worker died before the process ended *)
+Theorem C08_reaped_general_partial :
+  forall c script,
+    start_raises c = false -> death_while_running c script = None -> process_ends c script = true ->
+    s_reaped (fst (run_sm c script)) = true.
+Proof. exact reaped_general. Qed.
+
+(** The same flagship statement as a finite sweep (a TEST, not the property): for all 128
     configurations and all 2380 scripts of at most 3 events over a 13-event
     alphabet, outside the four catalogued defect regions the model satisfies
     the executable spec. *)
